@@ -128,6 +128,18 @@ def tsan_pass(ck, quick):
             ck.violation("C09:tsan:data-race:%s" % where, dict(threads=T, report=err[:3000]))
         elif p.returncode != 0:
             ck.violation("C09:tsan:trace-differs-or-crash:rc=%d" % p.returncode, dict(threads=T, stdout=p.stdout.decode()[-1500:], stderr=err[-1500:]))
+    # SIGBUS through the shared handler while other threads scan (plain build, free running)
+    bus = yv.yvbuild.link("plain", "c09bus", [os.path.join(H, "c09bus.c"), os.path.join(H, "yvcommon.c")])
+    nbus = 0
+    for T, rounds in ((2, 300), (4, 300), (8, 200)):
+        for rep in range(2 if quick else 6):
+            p = subprocess.run([bus, str(T), str(rounds), yv.TMP], stdout=subprocess.PIPE, stderr=subprocess.PIPE, timeout=600)
+            nbus += T * rounds
+            if p.returncode != 0:
+                what = {3: "wrong-result-while-another-thread-takes-sigbus", 4: "handler-or-usecount-wrong-after-sigbus-scans", 9: "sigbus-reached-the-applications-handler"}.get(p.returncode, "crash-rc=%d" % p.returncode)
+                ck.violation("C09:sigbus:%s" % what, dict(threads=T, rounds=rounds, stdout=p.stdout.decode()[-800:], stderr=p.stderr.decode()[-800:]))
+    ck.sub("sigbus-free-running", scans=nbus, note="one thread faults on a truncated mapping inside yara's try block (ERROR_COULD_NOT_MAP_FILE expected) while the others scan; detector over OS schedules")
+    total += nbus
     ck.sub("tsan-free-running", scans=total, thread_counts=[2, 4, 8] + ([] if quick else [32]), note="detector over OS schedules, not an enumeration; not counted in states/transitions")
     return total
 
